@@ -47,6 +47,8 @@ Expected == [symbolic |-> Symbolic,
              calls_at_call_time |-> IF Symbolic THEN 0 ELSE 1,
              concrete_result |-> IF Symbolic THEN FALSE ELSE Body(<<>>),
              calls_at_evaluation |-> IF Symbolic THEN { [a |-> [i \in 1..n |-> ParamVal(i, g)], r |-> Body(g)] : g \in Asgs } ELSE {},
-             solutions |-> IF Symbolic THEN { g \in Asgs : Body(g) } ELSE {}]
+             solutions |-> IF Symbolic THEN { g \in Asgs : Body(g) } ELSE {},
+             \* the number-valued variant of the function used as an operand:  g(...) == 0  holds exactly where the body's value is 0
+             solutions_zero |-> IF Symbolic THEN { g \in Asgs : ~Body(g) } ELSE {}]
 Emit == PrintT(ToJson([n |-> n, ndef |-> ndef, np |-> np, kw |-> kw, vars |-> vars, style |-> style, exp |-> Expected]))
 ====
